@@ -49,7 +49,7 @@ import (
 // ------------------------------------------------------------------------------------------------
 // small helpers
 
-const vWatchdog = 10 * time.Second // only ever reached when the implementation deviates (reported as `stuck`)
+const vWatchdog = 8 * time.Second // only ever reached when the implementation deviates (reported as `stuck`)
 
 func vhex(b []byte) string {
 	if len(b) == 0 {
